@@ -1,3 +1,4 @@
 import Audit.Tool
 import Uds.Props.C10
+import Uds.Props.C10Hist
 #audit Uds.Props.C10
